@@ -25,6 +25,16 @@ def run_bfs(report, n, rng):
         report.hist("bfs.tree", "nested transforms" if nested else "nanoemoji-shaped")
     evaluate_corr(report, IMPORTS, "Corr.C03", "breadth_first", "bf_case", cases, meta, "bf_agree", "bf_prop", shard=200)
     report.sample(meta[0])
+    if hasattr(P.Paint, "depth_first"):
+        cases, meta = [], []
+        for i in range(n):
+            root = gen_root(rng, names, rng.random() < 0.25, tiny=False)
+            ctx = [(c.paint.glyph, tuple(c.transform)) for c in root.depth_first() if isinstance(c.paint, P.PaintGlyph)]
+            cl = listlit([f"({strlit(g)}, {afflit(t)})" for g, t in ctx])
+            cases.append(f"({paintlit(root)}, {cl})")
+            meta.append(dict(function="Paint.depth_first (PaintGlyph contexts)", paint=paint_json(root), impl_out=[[g, [str(v) for v in t]] for g, t in ctx]))
+            report.count(("df", repr(root)), len(ctx) > 1)
+        evaluate_corr(report, IMPORTS, "Corr.C03", "depth_first", "bf_case", cases, meta, "df_agree", "df_prop", shard=200)
 
 
 def match_shapes(expected, actual, eps_fn):
@@ -101,7 +111,7 @@ def run_e2e(report, n_fonts, rng):
                     ys = [p[1] for it, _ in picture.flatten(act) for poly in it[1] for p in poly]
                     if glyf_bounds is None:
                         probs.append("COLRv0 base glyph has no extents although layers paint")
-                    elif not (glyf_bounds[0] <= min(xs) + 1 and glyf_bounds[1] <= min(ys) + 1 and glyf_bounds[2] >= max(xs) - 1 and glyf_bounds[3] >= max(ys) - 1):
+                    elif not (glyf_bounds[0] <= min(xs) + 2.5 and glyf_bounds[1] <= min(ys) + 2.5 and glyf_bounds[2] >= max(xs) - 2.5 and glyf_bounds[3] >= max(ys) - 2.5):
                         probs.append(f"base glyph bounds {glyf_bounds} do not cover the layers {(min(xs), min(ys), max(xs), max(ys))}")
             report.count(("e2e", fmt, text, str(sorted(cfg_over.items(), key=lambda kv: kv[0]))), True)
             if probs:
